@@ -150,10 +150,16 @@ JudgeC17(t, k) ==
         ChkD(t, "C17:constants-table-one-row-per-line", o.consts = f.consts, [obs |-> o.consts]) >>)
 
 \* C18 (permutation sets): case = [tree, finals, obs = [perms (Seq of Seq of 1-based positions), raised]]
+RECURSIVE LeavesOfTree(_)
+LeavesOfTree(tr) == IF tr.kids = <<>> THEN {tr.name} ELSE UNION {LeavesOfTree(tr.kids[i]) : i \in DOMAIN tr.kids}
 JudgeC18P(t, k) ==
     LET want == Perms(k.tree, k.finals)
         got == {[i \in DOMAIN k.obs.perms[j] |-> k.obs.perms[j][i]] : j \in DOMAIN k.obs.perms}
-    IN AllOf(<<
+    IN IF ~(LeavesOfTree(k.tree) \subseteq RangeOf(k.finals))
+       \* a final-state particle the event type does not have: refused, not answered with an empty list
+       THEN ChkD(t, "C18:amplitude-with-a-particle-outside-the-event-type-is-refused", k.obs.raised # "-",
+                 [leaves |-> LeavesOfTree(k.tree), finals |-> k.finals, perms |-> k.obs.perms])
+       ELSE AllOf(<<
         ChkD(t, "C18:permutations-are-exactly-the-injective-assignments", got = want,
              [missing |-> want \ got, unexpected |-> got \ want]),
         ChkD(t, "C18:each-permutation-once", Len(k.obs.perms) = Cardinality(want), [n |-> Len(k.obs.perms)]) >>)
